@@ -208,3 +208,17 @@ package index
 //gvc:  opt callees abstract
 //gvc:  sink encodeEntry requires ordered: calls("Sort") == 1
 //gvc:end
+
+// The cache-tree (TREE) extension decoder (C53: no input panics a decoder or
+// makes it allocate out of proportion). The counts in an entry are decimal
+// numbers read from the file and are not range-checked, so nothing may be
+// sized by them unchecked (safety obligations of make / arithmetic).
+//gvc:func (*treeExtensionDecoder).Decode
+//gvc:  props C53 C12
+//gvc:  theory int
+//gvc:  opt coarse
+//gvc:  opt frame args
+//gvc:  opt safety
+//gvc:  opt alloc_cap 65536
+//gvc:  requires nn: t != nil && d.r != nil && d.h != nil
+//gvc:end
